@@ -110,6 +110,8 @@ pub async fn run(args: &Args, rep: &mut Reporter) {
             };
             s.driver.allow_large = false;
             s.driver.max_file_bytes = 30_000;
+            // folders that are local-first, excluded from sync, or both, are part of the account too
+            s.driver.flag_pool = vec![sos_core::VaultFlags::LOCAL.bits(), sos_core::VaultFlags::NO_SYNC.bits(), sos_core::VaultFlags::NO_SYNC.bits()];
             let backend = config.backend.name();
             let version = if config.backend == Backend::Fs { "v2" } else { "v3" };
             let mut hash = Fnv::new();
@@ -198,6 +200,9 @@ pub async fn run(args: &Args, rep: &mut Reporter) {
                 }
                 Err(e) => rep.violation(&format!("C18:{backend}:roundtrip:import_failed"), &format!("import of the exported archive into empty storage failed: {e}"), ctx.clone()),
             }
+            rep.count("exported_folders", before.folders.len() as u64);
+            rep.count("exported_folders_with_no_sync", before.folders.values().filter(|f| f.flags & sos_core::VaultFlags::NO_SYNC.bits() != 0).count() as u64);
+            rep.count("exported_folders_local", before.folders.values().filter(|f| f.flags & sos_core::VaultFlags::LOCAL.bits() != 0).count() as u64);
             rep.case(hash.finish(), before.folders.values().map(|f| f.secrets.len()).sum::<usize>() > 2);
             if h == 0 {
                 rep.sample(json!({"kind": "round trip", "archive_version": version, "folders": before.folders.len(), "secrets": before.folders.values().map(|f| f.secrets.len()).sum::<usize>(), "ctx": ctx}));
